@@ -88,7 +88,7 @@ def read_branches(ctx, f):
         rows = {}
         for asg in uni.assignments({mkey: m}, keys):
             hit = [o for o in outs if uni.eval(o.cond, asg)]
-            side = {k: v for k, v in asg.items() if k != mkey}
+            side = {k: v for k, v in asg.items() if k != mkey and k != '__memo__'}
             if not hit:
                 rows.setdefault(('<no return>', None), []).append(side)
             else:
